@@ -7,7 +7,8 @@ from harness.core import coqstr, coqlist, coqbool, coqZ, coqopt
 OPTS = ['T', 'F', 'copy', 'overwrite', 'copyover']
 PYOPT = {'T': True, 'F': False, 'copy': 'copy', 'overwrite': 'overwrite', 'copyover': 'copyover'}
 COQOPT = {'T': 'MTrue', 'F': 'MFalse', 'copy': 'MCopy', 'overwrite': 'MOverwrite', 'copyover': 'MCopyover'}
-NAMES = ['a', 'b', 'c', 'd', 'e', 'f', 'g', 'h', 'i', 'j', 'k', 'l', 'm n', 'é', 'data', 'dim0', 'x1', 'x2', 'x3', 'x4']
+# names that are string prefixes of one another come first (paths are strings: '/a' is a prefix of '/ab' but not an ancestor)
+NAMES = ['a', 'ab', 'b', 'abc', 'c', 'a b', 'd', 'data', 'e', 'f', 'g', 'h', 'i', 'j', 'k', 'l', 'm n', 'é', 'dim0', 'x1', 'x2', 'x3', 'x4']
 
 
 # ------------------------------------------------------------------ reference simulation
@@ -468,9 +469,9 @@ def oracle_c12(case, res):
             if [strip_full(t) for t in post['tops']] != [strip_full(t) for t in pre['tops']]:
                 return {'key': 'failed-op-changed-state', 'what': f'{where}: raised but the forest changed'}
         elif not st['ok']:
-            # an allowed operation that raises is not by itself against C12 (the statement constrains the
-            # forest, not the absence of exceptions): the forest must still be well formed; re-synchronise
-            # the reference with what really happened and go on
+            # an operation the API allows (inside the property's domain: distinct names, no graft onto an own descendant) was
+            # refused: the branch did not arrive
+            return {'key': 'allowed-op-refused', 'what': f"{where}: an allowed operation raised {st.get('exc')}: the branch did not arrive"}
             ref = pre_ref
             ref.parent = {i: occ[0][3] for i, occ in idx.items()}
             ref.kids = {i: [k['id'] for k in occ[0][0]['kids']] for i, occ in idx.items()}
